@@ -29,6 +29,7 @@ import gen  # noqa: E402
 from rustsrc import AnchorLost  # noqa: E402
 
 OUT = os.path.join(VERIF, "out")
+REPO_DIR = os.environ.get("VERIF_REPO", "/repo")
 GEN = os.path.join(OUT, "gen")
 REPLAY = os.path.join(OUT, "replay")
 UNITS_DIR = os.path.join(VERIF, "specs", "units")
@@ -356,6 +357,36 @@ def verified_elsewhere():
     return _VE
 
 
+KANI_HARNESSES = ["duration_new_nonneg", "duration_checked_add_nonneg", "time_from_hms_nano", "month_try_from",
+                  "date_from_calendar_date", "i128_try_from_u128"]
+
+
+def run_kani():
+    """Thorough tier: validate the ASSUMED contracts of the `time` stand-ins and of i128::try_from(u128) against the
+    real crates with Kani (loop-free harnesses over the full input domain; no unwinding bound)."""
+    import shutil
+    kd = os.path.join(VERIF, "kani")
+    lock = os.path.join(REPO_DIR, "compiler", "Cargo.lock")
+    if os.path.exists(lock):
+        shutil.copy(lock, os.path.join(kd, "Cargo.lock"))
+    env = dict(os.environ, CARGO_NET_OFFLINE="true", CARGO_TARGET_DIR=os.path.join(OUT, "target_kani"))
+
+    def one(h):
+        t0 = time.time()
+        try:
+            p = subprocess.run(["cargo", "kani", "--harness", h], cwd=kd, env=env, stdout=subprocess.PIPE, stderr=subprocess.STDOUT, text=True, timeout=900)
+            ok = "VERIFICATION:- SUCCESSFUL" in p.stdout
+            st = "successful" if ok else ("failed" if "VERIFICATION:- FAILED" in p.stdout else "error")
+        except subprocess.TimeoutExpired:
+            st = "timeout"
+        return {"harness": h, "status": st, "wall_s": round(time.time() - t0, 1)}
+    # first one alone (builds the crate), the rest in parallel
+    res = [one(KANI_HARNESSES[0])]
+    with cf.ThreadPoolExecutor(max_workers=5) as ex:
+        res += list(ex.map(one, KANI_HARNESSES[1:]))
+    return res
+
+
 def load_known():
     p = os.path.join(VERIF, "known_findings.json")
     if not os.path.exists(p):
@@ -393,6 +424,10 @@ def main(argv):
     with cf.ThreadPoolExecutor(max_workers=4) as ex:
         for rec in ex.map(lambda p: process_unit(p, tier, seed), units):
             recs.append(rec)
+
+    kani_results = []
+    if tier == "thorough" and pid in ("C09", "C04"):
+        kani_results = run_kani()
 
     known = [k for k in load_known() if k.get("property") == pid and k.get("status") == "open"]
     known_ids = {k["obligation"] for k in known}
@@ -509,6 +544,10 @@ def main(argv):
                     real_violations.append(f)
                     break
 
+    for k in kani_results:
+        if k["status"] != "successful":
+            undecided.append("kani: assumed contract harness %s: %s" % (k["harness"], k["status"]))
+
     failed_obl = len({f["obligation"] for f in real_violations}) + len({f["obligation"] for f in knownhits})
     discharged = max(0, n_obl - failed_obl) if not undecided else 0
     wall = time.time() - t0
@@ -541,6 +580,7 @@ def main(argv):
             "undecided": undecided,
             "extraction_notes": sorted(notes),
             "known_findings_hit": [f["obligation"] for f in knownhits],
+            "kani_validation_of_assumed_contracts": kani_results,
         },
         "assumptions": sorted(assumptions),
         "wall_s": round(wall, 2),
